@@ -291,7 +291,7 @@ def schedule(dc, sc, res, rng, label):
             objs.append(base_dq)
         else:
             objs.append(dc.Deque.fromcache(dc.Cache(d, timeout=0), maxlen=maxlen))
-    sch = Sched(rng, clock, strategy=rng.choice(['random', 'preempt', 'random']),
+    sch = Sched(rng, clock, strategy=rng.choice(['random', 'preempt', 'random', 'ops']),
                 preempt_points={rng.randrange(0, 150) for _ in range(3)})
     rec = Recorder(sch)
 
